@@ -4,8 +4,8 @@
    the two.  The cleaner's program [clean_program] is regenerated from pkg/server/util.go on every run.  Data races,
    deadlocks between the server's locks and the other goroutines of a peer are NOT covered by theorems: checks/c20.py
    searches for them (race detector, deadlock detection of the synctest bubble, goroutine accounting). *)
-From Coq Require Import List ZArith Bool.
-From Verif Require Import Shutdown.Queue Generated.C20Clean.
+From Coq Require Import List ZArith Bool String.
+From Verif Require Import Shutdown.Queue Generated.C20Clean Shutdown.LockOrder Generated.C20Locks.
 Import ListNotations.
 
 (* for every queue content and every schedule: whenever the system comes to rest the cleaner has returned and the
@@ -30,6 +30,34 @@ Print Assumptions C20_queue_shutdown_terminates.
 Theorem C20_drain_until_empty_leaks : ~ no_leak [OClose; ODrainUntilEmpty].
 Proof. exact drain_until_empty_leaks. Qed.
 Print Assumptions C20_drain_until_empty_leaks.
+
+
+(* ---- second mechanism: lock ordering.  [lock_fns] is regenerated from pkg/server and internal/pkg/table on every run:
+   per function, the acquisitions and releases in source order, with the sequences of callees that can be named
+   without type information (functions of the package, methods on the receiver itself) placed at their call sites.
+   Every sequence respects the rank table of Shutdown.LockOrder (each class known, ranks strictly rising while locks
+   are held -- in particular no lock is taken twice --, everything released at the end) ... *)
+Theorem C20_lock_order_respected : first_bad lock_fns = None.
+Proof. vm_compute. reflexivity. Qed.
+Print Assumptions C20_lock_order_respected.
+
+(* ... and therefore any number of goroutines, each running one of these sequences, under any interleaving, never reach
+   a state in which somebody is unfinished and nobody can move (locks taken as exclusive) *)
+Theorem C20_no_lock_order_deadlock : forall progs sched,
+  Forall (fun p => exists f, In f lock_fns /\ to_ops (snd f) = Some p) progs ->
+  let ts := lrun sched (map (fun p => (p, [])) progs) in
+  existsb (fun t => negb (finished t)) ts = true -> existsb (enabled ts) ts = true.
+Proof. intros progs sched. exact (listed_functions_never_deadlock lock_fns progs sched C20_lock_order_respected). Qed.
+Print Assumptions C20_no_lock_order_deadlock.
+
+Open Scope string_scope.
+Example C20_lock_order_nonvacuous :
+  (* taking the table manager's lock twice (what TableManager.Update did through handleMacMobility) is refused *)
+  fn_ok ("x", [SAcq "TableManager.mu"; SAcq "TableManager.mu"; SRel "TableManager.mu"; SRel "TableManager.mu"]) = false /\
+  fn_ok ("y", [SAcq "fsm.lock"; SAcq "shared.mu"; SRel "shared.mu"; SRel "fsm.lock"]) = false /\
+  fn_ok ("z", [SAcq "shared.mu"; SAcq "bucket"; SAcq "fsm.lock"; SRel "fsm.lock"; SRel "bucket"; SRel "shared.mu"]) = true /\
+  (10 <= List.length lock_fns)%nat.
+Proof. vm_compute. repeat split; try reflexivity. repeat constructor. Qed.
 
 Example C20_nonvacuous :
   run [false; true; false; true; false; true; false; false] (start clean_program [7; 8]%Z) = ([], mkQ [] true false true) /\
